@@ -165,3 +165,19 @@ Theorem C02_claim_generation_conflict :
 Proof. exact c02_claim_generation_conflict. Qed.
 Print Assumptions C02_claim_generation_conflict.
 
+
+(* ------------------------------------------------------------------------------------------------------------------
+   End to end (Proofs/C03z.v): query string + well-formed history + a consumer that does not exist yet - every returned
+   candidate is claimed with 204 by a client of any microversion, and the claim is again a well-formed request. *)
+(* the claim, alone *)
+From PV Require Import Spec.CandSpec Proofs.Defs Model.Parse Model.DecodeQ Model.DecodeQC.
+From PV Require Import Proofs.C02 Proofs.C02m Proofs.C02c Proofs.C03s Proofs.C03c Proofs.C03q Proofs.C03u Proofs.C03uq Proofs.C03w
+                       Proofs.C03x Proofs.C02s Proofs.C20c Proofs.C13q Proofs.C03z.
+Theorem C02_end_to_end : forall cf l (tok_rp tok_agg tok_trait tok_rc tok_suffix : str -> Z) v kv q a s c k proj user ty v',
+  reqs_wf l -> (forall x y : str, tok_rc x = tok_rc y -> x = y) ->
+  decode_candidates tok_rp tok_agg tok_trait tok_rc tok_suffix v kv = POk q ->
+  candidates v q (run cf db0 l) = COk a s -> In c a -> find_cons (run cf db0 l) k = None ->
+  status (snd (step cf (run cf db0 l) (AllocPut v' (cons_in_at v' c k proj user ty)))) = 204 /\
+  reqs_wf (l ++ [AllocPut v' (cons_in_at v' c k proj user ty)]).
+Proof. exact c02_end_to_end. Qed.
+Print Assumptions C02_end_to_end.
